@@ -10,7 +10,7 @@ Supported subset (anything else: the translator REFUSES and the tie is reported
 as broken):
   statements : docstring, `x = e`, `if/elif/else`, `return e`  (every path returns)
   expressions: int/float/bool/str literals, names, + - * / // % unary -, `2 ** e`
-               (-> oracle exp2), comparisons (single operator), `x in [literals]`,
+               (-> oracle exp2), `e ** k` for k = 2..8, comparisons (also chained `a < b < c`), `x in [literals]`,
                `x is None` / `is not None`, and / or / not with Python truthiness,
                conditional expressions, calls to: abs, max, min, float, int (on Z),
                `s.lower()`, other functions translated in the same module.
@@ -155,7 +155,7 @@ class FnTranslator:
             if key in env:
                 return env[key]
             raise Refuse('%s: unknown attribute %s' % (self.rel, key))
-        if isinstance(n, ast.Subscript) and isinstance(n.value, ast.Name) and not isinstance(n.slice, (ast.Constant, ast.Tuple, ast.Slice)):
+        if isinstance(n, ast.Subscript) and not isinstance(n.slice, (ast.Constant, ast.Tuple, ast.Slice)):
             # elementwise view of numpy code: v[mask] is v itself, read under the guard `mask`
             # (only legal where the result is consumed under the same mask; checked at the use site)
             v, m = self.expr(n.value, env), self.expr(n.slice, env)
@@ -184,13 +184,20 @@ class FnTranslator:
                 if isinstance(n.left, ast.Constant) and n.left.value in (2, 2.0):
                     self.oracles.add('exp2')
                     return ('(exp2 %s)' % self.toQ(self.expr(n.right, env)), 'Q')
-                if isinstance(n.right, ast.Constant) and n.right.value == 2 and isinstance(n.right.value, int):
-                    a = self.expr(n.left, env)
-                    nm = self.new('sq')
-                    if a[1] == 'Z':
-                        return ('(let %s := %s in %s * %s)' % (nm, a[0], nm, nm), 'Z')
-                    return ('(let %s := %s in Qmult %s %s)' % (nm, self.toQ(a), nm, nm), 'Q')
-                raise Refuse('%s: only 2 ** e and e ** 2 are supported' % self.rel)
+                if isinstance(n.right, ast.Constant) and isinstance(n.right.value, int) and not isinstance(n.right.value, bool) \
+                        and 2 <= n.right.value <= 8:
+                    k = n.right.value
+                    def power(vs):
+                        a = vs[0]
+                        nm = self.new('pw')
+                        if a[1] == 'Z':
+                            return ('(let %s := %s in %s)' % (nm, a[0], ' * '.join([nm] * k)), 'Z')
+                        body = nm
+                        for _ in range(k - 1):
+                            body = '(Qmult %s %s)' % (body, nm)
+                        return ('(let %s := %s in %s)' % (nm, self.toQ(a), body), 'Q')
+                    return self.lift([self.expr(n.left, env)], power)
+                raise Refuse('%s: only 2 ** e and e ** k (k = 2..8) are supported' % self.rel)
             a, b = self.expr(n.left, env), self.expr(n.right, env)
             if isinstance(n.op, (ast.BitAnd, ast.BitOr)):
                 if a[1] == 'B' and b[1] == 'B':
@@ -218,7 +225,12 @@ class FnTranslator:
             raise Refuse('binary operator %s' % type(n.op).__name__)
         if isinstance(n, ast.Compare):
             if len(n.ops) != 1:
-                raise Refuse('%s: chained comparison' % self.rel)
+                # a < b < c  is  (a < b) and (b < c)   (operands are pure expressions here)
+                parts, left = [], n.left
+                for op, right in zip(n.ops, n.comparators):
+                    parts.append(self.expr(ast.Compare(left=left, ops=[op], comparators=[right]), env)[0])
+                    left = right
+                return ('(' + ' && '.join(parts) + ')', 'B')
             op, rhs = n.ops[0], n.comparators[0]
             if isinstance(op, (ast.Is, ast.IsNot)):
                 if not (isinstance(rhs, ast.Constant) and rhs.value is None):
@@ -582,6 +594,21 @@ class FnTranslator:
         if isinstance(s, ast.AugAssign) and isinstance(s.target, ast.Name) and isinstance(s.op, (ast.Sub, ast.Add, ast.Mult)):
             binop = ast.BinOp(left=ast.Name(id=s.target.id, ctx=ast.Load()), op=s.op, right=s.value)
             return self.block([ast.Assign(targets=[ast.Name(id=s.target.id, ctx=ast.Store())], value=binop)] + rest, env, ret)
+        if isinstance(s, ast.If) and not s.orelse and len(s.body) == 1 and isinstance(s.body[0], ast.Assign) \
+                and isinstance(s.test, ast.Compare) and len(s.test.ops) == 1 and isinstance(s.test.ops[0], ast.Is) \
+                and isinstance(s.test.comparators[0], ast.Constant) and s.test.comparators[0].value is None \
+                and isinstance(s.test.left, ast.Name) and self.target_key(s.body[0].targets[0]) == s.test.left.id \
+                and env.get(s.test.left.id, ('', ''))[1] in ('OQ', 'OZ'):
+            # x = <default> when the optional x was not given: from here on x is a plain number
+            name = s.test.left.id
+            oty = env[name][1]
+            d = self.expr(s.body[0].value, env)
+            inner, nm = self.new(name), self.new(name)
+            dflt = self.toQ(d) if oty == 'OQ' else self.coerce(d, 'Z')
+            env2 = dict(env)
+            env2[name] = (nm, 'Q' if oty == 'OQ' else 'Z')
+            return '(let %s := (match %s with Some %s => %s | None => %s end) in\n   %s)' % (
+                nm, env[name][0], inner, inner, dflt, self.block(rest, env2, ret))
         if isinstance(s, ast.If) and self.is_raise_guard(s):
             # `if <cond>: raise ...` -- the error path is outside the translated function:
             # its condition is recorded as a precondition comment, the rest is translated
